@@ -399,7 +399,9 @@ def gen_c03_case(rnd, steps, flavour):
             elif ts:
                 n = rnd.randint(0, min(3, len(ts)))
                 sel = rnd.sample(ts, n)
+                sh.emit('hobs %d' % h)
                 sh.emit('lset %d %s %d %s' % (h, sl, n, ' '.join(map(str, sel))))
+                sh.emit('hobs %d' % h)
             sh.emit('lchk %d %s' % (h, sl))
         elif r < 0.85:
             # raw lookups with every sort of key
@@ -1593,8 +1595,10 @@ def gen_c02_case(rnd, steps, every_k, flavour):
             modify_step(sh, st)
         elif r < 0.72:
             sh.valid_link_step(chk=False)
-        elif r < 0.82:
+        elif r < 0.78:
             unlink_step(sh)
+        elif r < 0.82:
+            kept_handle_step(sh)
         elif r < 0.92:
             live = sh.live('BSPADTMGRX')
             if live:
@@ -1645,6 +1649,8 @@ ROUTES = {
     'reopen def': 'File::open(path) with every argument defaulted',
     'wrowbad': 'DataFrame::writeRow refused (row past the end, unconvertible value, too many values), judged on the raw dump',
     'sdata': 'template DataSet::setData(value)', 'adata': 'DataArray::appendData(dtype, ptr, count, axis)',
+    'hobs': 'every getter of an entity through the handle the driver kept (the one that made the calls), against fresh handles',
+    'quiet': 'blind build: no getter is called between create and the first reopen',
     'File.updatedAt/location': 'File::updatedAt, File::location (raw dump of C02 at every reopen)',
 }
 
@@ -1654,7 +1660,7 @@ def route_of(line):
     c = t[0]
     if c in ('lsf', 'llsf'):
         return '%s %s %s' % (c, t[2], t[3])
-    if c in ('dimsf', 'posq', 'colq', 'setlt', 'touchupd', 'sdata', 'adata'):
+    if c in ('dimsf', 'posq', 'colq', 'setlt', 'touchupd', 'sdata', 'adata', 'hobs'):
         return c
     if c in ('setmeta', 'setlink', 'setext') and len(t) > 2 and t[2] == 'none':
         return c + ' none'
@@ -1668,6 +1674,8 @@ def route_of(line):
         return 'reopen def'
     if c == 'wrowbad':
         return 'wrowbad ' + t[3]
+    if c == 'quiet' and t[1] == 'on':
+        return 'quiet'
     return None
 
 
@@ -1771,6 +1779,120 @@ def gen_c03_filter_case(rnd):
     after_reopen(sh)
     filter_queries(sh, 8)
     return Case(sh.lines, 'c03-filters', {'cls': sh.cls})
+
+
+# ------------------------------------------------------------------------------------------------
+# C02: blind build — the tree is built without a single observation; the first look is a reopen
+# ------------------------------------------------------------------------------------------------
+def gen_c02_blind_case(rnd, first):
+    """`first`: the reopen kind that looks at the file first (ro / other / rw / otherw / def).  Entities with every optional
+    sub-container left untouched (arrays without descriptors, tags without references or features, sections without
+    properties, sources without children, empty blocks and groups) next to populated ones."""
+    sh = Shadow(rnd)
+    st = {'rows': {}, 'dims': {}, 'ptype': {}}
+    sh.emit('quiet on')
+    sh.mk(-1, 'B', 'empty block', 't')
+    s0 = sh.mk(-1, 'S', 'bare section', 't')
+    s1 = sh.mk(-1, 'S', sh.pick_new_name(-1, 'S', 0.2), 't')
+    s2 = sh.mk(s1, 'S', 'child', 't')
+    sh.mk(s1, 'P', 'p', '', 'v 2 Double Double')
+    if rnd.random() < 0.5:
+        sh.mk(s2, 'P', 'q', '', 't String')
+    b = sh.mk(-1, 'B', sh.pick_new_name(-1, 'B', 0.2), 't')
+    a_pos = sh.mk(b, 'A', 'positions', 't', 'Double 1 3')                 # never asked for its descriptors
+    a_bare = sh.mk(b, 'A', sh.pick_new_name(b, 'A', 0.2), 't', '%s 2 2 3' % rnd.choice(['Int32', 'Double', 'String']))
+    a_dim = sh.mk(b, 'A', sh.pick_new_name(b, 'A', 0.2), 't', 'Double 1 4')
+    d = sh.mk(b, 'D', 'frame', 't', '2 %s Int32 s: %s Double s:6d56' % (hx('c0'), hx('c1')))
+    t_bare = sh.mk(b, 'T', 'bare tag', 't', '1 ' + D1)
+    t_full = sh.mk(b, 'T', sh.pick_new_name(b, 'T', 0.2), 't', '2 %s %s' % (D1, D2))
+    m_bare = sh.mk(b, 'M', 'bare mtag', 't', str(a_pos))
+    m_full = sh.mk(b, 'M', sh.pick_new_name(b, 'M', 0.2), 't', str(a_pos))
+    g_bare = sh.mk(b, 'G', 'bare group', 't')
+    g_full = sh.mk(b, 'G', sh.pick_new_name(b, 'G', 0.2), 't')
+    r_bare = sh.mk(b, 'R', 'bare source', 't')
+    r_full = sh.mk(b, 'R', sh.pick_new_name(b, 'R', 0.2), 't')
+    r_kid = sh.mk(r_full, 'R', 'kid', 't')
+    # content for the populated ones: only mutating calls
+    lines = ['dim %d sampled' % a_dim, 'dim %d set' % a_dim, 'dim %d frame %d' % (a_dim, d), 'dimset %d 1 %d' % (a_dim, rnd.randrange(100)),
+             'wdata %d %d' % (a_dim, rnd.randrange(100)), 'setlabel %d %s' % (a_dim, hx('volt')), 'setunit %d %s' % (a_dim, hx('mV')),
+             'ladd %d ref %d' % (t_full, a_dim), 'ladds %d ref n:%d' % (m_full, a_bare), 'setext %d %d' % (m_full, a_pos),
+             'ladd %d ga %d' % (g_full, a_dim), 'ladd %d gd %d' % (g_full, d), 'ladd %d gt %d' % (g_full, t_full), 'ladd %d gm %d' % (g_full, m_full),
+             'ladd %d src %d' % (a_dim, r_kid), 'ladd %d src %d' % (t_full, r_full), 'ladds %d src i:%d' % (g_full, r_kid),
+             'setmeta %d %d' % (b, s1), 'setmeta %d %d' % (a_dim, s2), 'setmetas %d i:%d' % (t_full, s1), 'setlink %d %d' % (s2, s1),
+             'frows %d 2' % d, 'setdef %d %s' % (a_bare, hx('definition')),
+             'settext %d 2 %s %s' % (t_full, D1, D1), 'setunits %d 1 %s' % (m_full, hx('ms')), 'forcecreated %d 1000000123' % a_pos,
+             'setrepo %d %s' % (s1, hx('http://x')), 'puncert %d %s' % (s2 + 1, DVALS[3])]
+    rnd.shuffle(lines)
+    for l in lines[:rnd.randint(len(lines) // 2, len(lines))]:
+        sh.emit(l)
+        if l.startswith('frows'):
+            sh.emit('wrow %d %d %d' % (d, rnd.randrange(2), rnd.randrange(100)))
+    x = sh.mk(t_full, 'X', '', '', 'h %d %s' % (a_dim, rnd.choice(LT)))
+    sh.e[x]['name'] = None
+    if rnd.random() < 0.5:
+        x2 = sh.mk(m_full, 'X', '', '', 's n:%d %s' % (a_bare, rnd.choice(LT)))
+        sh.e[x2]['name'] = None
+    # the first look
+    if first == 'ro':
+        sh.emit('reopen ro')
+    else:
+        sh.emit('reopen ' + first)
+    sh.emit('observe')
+    for k in (a_pos, a_bare, t_bare, m_bare, g_bare, r_bare, s0):
+        sh.emit('hobs %d' % k)
+    sh.emit('dimsf %d set' % a_pos)
+    sh.emit('posq %d' % m_bare)
+    sh.emit('chk %d A' % b)
+    sh.emit('lchk %d ref' % t_bare)
+    sh.emit('chk %d X' % t_bare)
+    sh.emit('chk %d P' % s0)
+    sh.emit('chk %d R' % r_bare)
+    filter_queries(sh, 4)
+    if first in ('ro', 'other'):
+        sh.emit('reopen ro' if rnd.random() < 0.3 else 'reopen other')
+    sh.emit('reopen rw')
+    sh.emit('observe')
+    # the read-write session goes on with the entities that were bare
+    for l in ['dim %d set' % a_pos, 'ladd %d ref %d' % (t_bare, a_pos), 'ladd %d ga %d' % (g_bare, a_bare), 'setmeta %d %d' % (r_bare, s0)]:
+        if rnd.random() < 0.6:
+            sh.emit(l)
+    sh.emit('reopen other')
+    sh.emit('observe')
+    return Case(sh.lines, 'c02-blind-' + first, {'cls': sh.cls})
+
+
+def kept_handle_step(sh):
+    """a replace-all / clear call through the kept handle, looked at through that same handle, through fresh handles (the
+    dump) and, by the caller, after a reopen: empty vectors in particular"""
+    rnd = sh.rnd
+    ls = sh.lcontainers()
+    if not ls:
+        return
+    h, sl = rnd.choice(ls)
+    ts = sh.live(SLKIND[sl], block=sh.block_of(h))
+    if ts and rnd.random() < 0.7:
+        t0 = rnd.choice(ts)
+        sh.emit('ladd %d %s %d' % (h, sl, t0))              # the handle has touched its container
+    sh.emit('hobs %d' % h)
+    n = rnd.choice([0, 0, 0, 1, 2]) if ts else 0
+    sel = rnd.sample(ts, min(n, len(ts)))
+    sh.emit(('lset %d %s %d %s' % (h, sl, len(sel), ' '.join(map(str, sel)))).strip())
+    sh.emit('hobs %d' % h)
+    sh.emit('lchk %d %s' % (h, sl))
+    q = rnd.random()
+    ks = sh.live('A')
+    if q < 0.3 and ks:
+        a = rnd.choice(ks)
+        sh.emit('hobs %d' % a)
+        sh.emit('deldims %d' % a)
+        sh.emit('hobs %d' % a)
+    elif q < 0.5:
+        ps = sh.live('P')
+        if ps:
+            p = rnd.choice(ps)
+            sh.emit('hobs %d' % p)
+            sh.emit('setvals %d 0' % p)
+            sh.emit('hobs %d' % p)
 
 
 def load_corpus(pid):
